@@ -420,7 +420,8 @@ def run(ctx):
                     "SAMI read: languages in order of first appearance, no repetition; every non-blank paragraph in "
                     "exactly the list of its language (count preserved)", "prefix selection refuted (en / en-US witness)",
                     "SAMI write: body sorted whenever the first language's cues are sorted; every paragraph in a "
-                    "block of its own start; earlier paragraphs never move", "WebVTT lang= picks that language's list"],
+                    "block of its own start; earlier paragraphs never move; every language's paragraphs = its cue "
+                    "sequence in order (all sorted sets, distinct language names)", "WebVTT lang= picks that language's list"],
         "correspondence_only": ["bs4 / lxml / html.parser / cssutils / soupsieve layers (documents <-> the abstract "
                                 "inputs of the model)", "PYCAPTION_DEFAULT_LANG and hash seed (worker processes)",
                                 "SRT / MicroDVD / SCC reader lang= labelling", "SAMI re-read language order"]}
